@@ -142,7 +142,7 @@ REP_PARAMS = [
 
 def rep_tasks(oracles, budget, graphs=None, params=None, exit_sets=None, cancel_sets=None, **kw):
     tasks = []
-    graphs = graphs or list(S.REP)
+    graphs = graphs or [g for g in S.REP if g not in ("cancelfan7", "indep4", "wide5")]  # heavy ones only when named
     for g in graphs:
         bb = S.REP[g]
         n = len(bb)
@@ -460,7 +460,7 @@ def c05(tier):
 def c06(tier):
     b = (1, 0) if tier == "quick" else (2, 0)
     tasks = []
-    graphs = ["pair", "fork", "join", "twocomp", "wide5"] if tier == "quick" else list(S.REP)
+    graphs = ["pair", "fork", "join", "twocomp", "wide5"] if tier == "quick" else ["pair", "chain3", "fork", "join", "diamond", "twocomp", "indep3"]
     for mx in (1, 2):
         for nproc in (1, 2, None):
             for sz in (1, 2, 3):
